@@ -209,6 +209,8 @@ static void containment_and_accuracy(unsigned long long& unit)
 							if(!mc::mine(unit++)) continue;
 							if(mc::out_of_time("C14 containment")) return;
 							// families 4 and 5: sharply peaked off-centre Gaussians (width 0.07 and 0.1 of the side, centred at 0.7)
+							// the constant family takes three values over the seeds: positive, zero and negative
+							const double konst = fam != 0 ? 0.0 : (seed % 3 == 1 ? 2.75 : seed % 3 == 2 ? 0.0 : -1.5);
 							const ld gs = fam == 4 ? 0.07L : fam == 5 ? 0.1L : 0.25L, gc = fam >= 4 ? 0.7L : 0.3L;
 							// regions: offset, anisotropic, tiny and huge widths
 							V region(2 * dim);
@@ -226,7 +228,7 @@ static void containment_and_accuracy(unsigned long long& unit)
 								double s = 1;
 								switch(fam)
 								{
-									case 0: return 2.75;
+									case 0: return konst;
 									case 1: for(double u : t) s *= std::exp(-u); return s;
 									case 2: case 4: case 5: for(double u : t) s *= std::exp(-(u - (double)gc) * (u - (double)gc) / (2 * (double)gs * (double)gs)); return s;
 									default: for(double u : t) s *= (0.5 + u * u); return s;
@@ -242,7 +244,7 @@ static void containment_and_accuracy(unsigned long long& unit)
 								m2 = s2 * sqrtl(M_PIl / 2) * (erfl((1 - gc) / (sqrtl(2.0L) * s2)) + erfl(gc / (sqrtl(2.0L) * s2)));
 							}
 							if(fam == 3) { m1 = 0.5L + 1 / 3.0L; m2 = 0.25L + 1 / 3.0L + 0.2L; }
-							if(fam == 0) { exact = 2.75L * vol; var = 0; }
+							if(fam == 0) { exact = (ld)konst * vol; var = 0; }
 							else { exact = powl(m1, dim) * vol; var = (powl(m2, dim) - powl(m1, 2 * dim)) * vol * vol; }
 							std::string key = std::string(m) + ",dim=" + std::to_string(dim) + ",region=" + std::to_string(reg) + ",n=" + std::to_string(budget) + ",family=" + std::to_string(fam) + ",seed=" + std::to_string(seed);
 							sh->died = 1;
@@ -291,9 +293,10 @@ static void containment_and_accuracy(unsigned long long& unit)
 	for(const char* m : {"Monte-Carlo", "Vegas", "Miser"})
 		for(int d3 = 0; d3 < 2; d3++)
 			for(unsigned seed : seeds)
+			for(int budget : {20000, 0})	// 0: the budget argument left at its default (30000 calls)
 			{
 				if(!mc::mine(unit++)) continue;
-				std::string key = std::string("frontend,") + m + (d3 ? ",3D" : ",2D") + ",seed=" + std::to_string(seed);
+				std::string key = std::string("frontend,") + m + (d3 ? ",3D" : ",2D") + ",seed=" + std::to_string(seed) + (budget ? "" : ",default_budget");
 				sh->died = 1;
 				std::string ms = m;
 				bool ok = in_child([&](Digest*) {
@@ -301,8 +304,10 @@ static void containment_and_accuracy(unsigned long long& unit)
 					g_seed = seed;
 					g_entropy_requests = 0;
 					double v;
-					if(d3) v = Integrate_3D([&](double x, double y, double z) { evals++; if(!(x >= 0 && x <= 1 && y >= 2 && y <= 3.5 && z >= 5 && z <= 7.25)) outside++; return std::exp(-x) * (1 / (y + 1)) * (2 + std::cos(0.3 * z)); }, 0, 1, 2, 3.5, 5, 7.25, ms, 20000);
-					else v = Integrate_2D([&](double x, double y) { evals++; if(!(x >= 0 && x <= 1 && y >= 2 && y <= 3.5)) outside++; return std::exp(-x) * (1 / (y + 1)); }, 0, 1, 2, 3.5, ms, 20000);
+					auto f3 = [&](double x, double y, double z) { evals++; if(!(x >= 0 && x <= 1 && y >= 2 && y <= 3.5 && z >= 5 && z <= 7.25)) outside++; return std::exp(-x) * (1 / (y + 1)) * (2 + std::cos(0.3 * z)); };
+					auto f2 = [&](double x, double y) { evals++; if(!(x >= 0 && x <= 1 && y >= 2 && y <= 3.5)) outside++; return std::exp(-x) * (1 / (y + 1)); };
+					if(d3) v = budget ? Integrate_3D(f3, 0, 1, 2, 3.5, 5, 7.25, ms, budget) : Integrate_3D(f3, 0, 1, 2, 3.5, 5, 7.25, ms);
+					else v = budget ? Integrate_2D(f2, 0, 1, 2, 3.5, ms, budget) : Integrate_2D(f2, 0, 1, 2, 3.5, ms);
 					*sh = Res{v, evals, outside, 0, 0};
 				}, nullptr, 300);
 				mc::count("evaluations", 1);
